@@ -6,6 +6,7 @@ import (
 	"bytes"
 	"encoding/json"
 	"fmt"
+	"io"
 	"os"
 	"os/exec"
 	"path/filepath"
@@ -19,6 +20,7 @@ import (
 	"github.com/kardiachain/go-kardia/consensus"
 	"github.com/kardiachain/go-kardia/kai/kaidb"
 	"github.com/kardiachain/go-kardia/kai/kaidb/memorydb"
+	auto "github.com/kardiachain/go-kardia/lib/autofile"
 	"github.com/kardiachain/go-kardia/lib/common"
 	"github.com/kardiachain/go-kardia/lib/p2p"
 	"github.com/kardiachain/go-kardia/mainchain/blockchain"
@@ -227,23 +229,23 @@ type pubMsg struct {
 }
 
 type crashScenario struct {
-	w        *World
-	mode     string // "flush" (TrieDirtyDisabled: state flushed every block) | "memory" (default cache)
-	victim   int
-	tmp      string
-	nodes    map[int]*gated
-	ctl      *crashCtl
-	q        []flight
-	dbImage  *memorydb.Database
-	walAsIs  string
-	walFlush string
-	pub      []pubMsg // what the victim published before the crash
-	preSign  []SignReq
+	w          *World
+	mode       string // "flush" (TrieDirtyDisabled: state flushed every block) | "memory" (default cache)
+	victim     int
+	tmp        string
+	nodes      map[int]*gated
+	ctl        *crashCtl
+	q          []flight
+	dbImage    *memorydb.Database
+	walAsIs    string
+	walFlush   string
+	pub        []pubMsg // what the victim published before the crash
+	preSign    []SignReq
 	headBefore uint64
-	savedH   uint64 // highest height whose SaveBlock had completed before the crash
-	appliedH uint64 // highest height the victim had fully applied (state saved) before the crash
-	steps    int
-	deadline time.Time
+	savedH     uint64 // highest height whose SaveBlock had completed before the crash
+	appliedH   uint64 // highest height the victim had fully applied (state saved) before the crash
+	steps      int
+	deadline   time.Time
 }
 
 var gateMu sync.Mutex
@@ -663,7 +665,7 @@ type crashOutcome struct {
 	WalVariant string   `json:"wal"`
 	Op         opRec    `json:"op"` // the operation that did NOT happen
 	Window     string   `json:"window"`
-	ModelH     uint64   `json:"model_h"`    // position in CrashRecovery.tla: the crash happens before step ModelStep of height ModelH
+	ModelH     uint64   `json:"model_h"` // position in CrashRecovery.tla: the crash happens before step ModelStep of height ModelH
 	ModelStep  string   `json:"model_step"`
 	HeadBefore uint64   `json:"head_before"` // chain head when the process died
 	StartErr   string   `json:"start_err,omitempty"`
@@ -676,6 +678,7 @@ type crashOutcome struct {
 	StoreDiff  string   `json:"store_diff"`  // a stored block that differs from what the network committed
 	FinalH     uint64   `json:"final_h"`     // victim's height at the end of the continuation
 	NetH       uint64   `json:"net_h"`       // the other nodes' height at the end
+	WalCorrupt string   `json:"wal_corrupt"` // the WAL as left by the recovered validator is not readable to its end
 	Problems   []string `json:"problems"`
 }
 
@@ -772,10 +775,17 @@ func crashOnce(w *World, mode string, victim int, heights uint64, cut int, walVa
 	root := filepath.Join(tmp, "victim2")
 	os.MkdirAll(root, 0o700)
 	src := s.walAsIs
-	if walVariant == "flushed" {
+	if walVariant == "flushed" || walVariant == "torn" {
 		src = s.walFlush
 	}
 	exec.Command("cp", "-r", src, filepath.Join(root, "cs.wal")).Run()
+	if walVariant == "torn" {
+		// the last record only partly reached the disk: cut 5 bytes off the head file
+		head := filepath.Join(root, "cs.wal", "wal")
+		if st, err := os.Stat(head); err == nil && st.Size() > 40 {
+			os.Truncate(head, st.Size()-5)
+		}
+	}
 	var nv *Node
 	func() {
 		defer func() {
@@ -859,6 +869,39 @@ func crashOnce(w *World, mode string, victim int, heights uint64, cut int, walVa
 	}
 	out.FinalH = g.CS.GetRoundState().Height
 	out.NetH = target
+	// the log the recovered validator has been writing must itself be readable to its end (a torn tail that is
+	// not repaired at start-up swallows everything appended after it at the NEXT restart)
+	g.isGated = false
+	select {
+	case g.release <- struct{}{}:
+	default:
+	}
+	g.CS.Stop()
+	select {
+	case <-g.CS.VerifDone():
+	case <-time.After(5 * time.Second):
+	}
+	s.nodes[victim] = nil
+	defer nv.Close()
+	if grp, err := auto.OpenGroup(filepath.Join(root, "cs.wal", "wal")); err == nil {
+		if rd, err := grp.NewReader(0); err == nil {
+			dec := consensus.NewWALDecoder(rd)
+			n := 0
+			for {
+				_, err := dec.Decode()
+				if err == io.EOF {
+					break
+				}
+				if err != nil {
+					out.WalCorrupt = fmt.Sprintf("record %d of the WAL written after the restart does not decode: %v", n+1, err)
+					break
+				}
+				n++
+			}
+			rd.Close()
+		}
+		grp.Close()
+	}
 	// ---- verdicts ----
 	post := nv.Sign.Take()
 	if dbgCrash {
@@ -927,6 +970,9 @@ func TestCrashSweep(t *testing.T) {
 			if strings.HasPrefix(ops[cut-2].Kind, "wal.write") || strings.HasPrefix(ops[cut-1].Kind, "wal") {
 				jobs = append(jobs, job{cut, "flushed"})
 			}
+			if strings.HasPrefix(ops[cut-2].Kind, "wal") {
+				jobs = append(jobs, job{cut, "torn"}) // the record written last reached the disk only in part
+			}
 		}
 		ch := make(chan job)
 		var wg sync.WaitGroup
@@ -979,6 +1025,9 @@ func TestCrashSweep(t *testing.T) {
 		}
 		if o.StoreDiff != "" {
 			res.Mismatch("crash:store-differs:"+pos, where+": "+o.StoreDiff, detail)
+		}
+		if o.WalCorrupt != "" {
+			res.Mismatch("crash:wal-unreadable-after-recovery:"+o.Mode+":tail-"+o.WalVariant, where+": "+o.WalCorrupt, detail)
 		}
 		rewound := o.HeadH < o.HeadBefore
 		if len(o.Conflicts) > 0 {
